@@ -141,6 +141,47 @@ def conversions(rep, cfg):
             rep.ob("HASH/%s/%s::hash" % (cfg.name, f), ws == [mk("canon_bytes", mk("param", "self"))], "Hash must write exactly the canonical bytes (consistent with Eq); writes: %s" % [Tm.show(w, maxdepth=4) for w in ws], where=cfg.where(p))
 
 
+def strings(rep, cfg):
+    """decimal FromStr (Horner base 10, rejects non-digits) and Display (prints the canonical integer)"""
+    if cfg.name not in ("A", "R"):
+        return
+    for f in FIELDS:
+        p = find1(rep, cfg, "FromStr(%s)" % f, r"^fields::%s::arkworks::<impl core::str::FromStr for .*>::from_str$" % f)
+        if p:
+            out = cfg.run(p, mode="glue")
+            flows = out.flows
+            ok = False
+            why = "flows: %s" % [Tm.show(v, maxdepth=3) for pc, v in flows]
+            oks = [v for pc, v in flows if v.op == "variant" and v.args[0] == "Ok"]
+            errs = [(pc, v) for pc, v in flows if v.op == "variant" and v.args[0] == "Err"]
+            if len(oks) == 1 and oks[0].args[1].op == "proj" and oks[0].args[1].args[0].op == "fold":
+                it, item, accs, inits, nexts = oks[0].args[1].args[0].args
+                dig_opt = mk("call", "core::char::methods::<impl char>::to_digit", item, lit(10))
+                dig = Tm.payload(dig_opt, "Some", 0)
+                arr = [mk("cast", "u64", dig), mk("cast", "u64", Tm.intop("shr", dig, lit(64)))] + [lit(0)] * (LIMBS64[f] - 2)
+                D = mk("from_le_limbs", f, mk("array", *arr))
+                N = P.Norm(K.MODULI[f])
+                want = mk("add", mk("mul", felem(f, 10), accs[0]), D)
+                src_ok = it.op == "call" and it.args[0].endswith("::chars") and it.args[1] is mk("param", "s")
+                step_ok = N.pkey(N.poly(nexts[0])) == N.pkey(N.poly(want))
+                rej_ok = len(errs) == 1 and errs[0][0] and errs[0][0][-1] is Tm.is_variant(dig_opt, "None")
+                ok = src_ok and inits[0] is felem(f, 0) and step_ok and rej_ok
+                why = "iterates the characters of the input: %s; starts at 0: %s; step acc*10 + digit (radix 10 in both places): %s; a non-digit is the only rejection: %s" % (
+                    src_ok, inits[0] is felem(f, 0), step_ok, rej_ok)
+            rep.ob("STR/%s/%s::from_str" % (cfg.name, f), ok, "FromStr must be decimal Horner evaluation rejecting non-digits: " + why, where=cfg.where(p))
+        p = find1(rep, cfg, "Display(%s)" % f, r"^fields::%s::arkworks::<impl core::fmt::Display for .*>::fmt$" % f)
+        if p:
+            out = cfg.run(p, mode="glue")
+            S_ = mk("param", "self")
+            shown = mk("call", "<T as ark_std::string::ToString>::to_string", mk("struct", "ark_ff::BigInt", ("0",), mk("canon_limbs", S_)))
+            fm = [a for pc, kind, args, site in out.effects if kind == "fmt" for a in args if isinstance(a, Tm.T)]
+            uses = any(Tm.contains(a, lambda t: t is shown) for a in fm)
+            raw = any(Tm.contains(a, lambda t: t is S_ and False) for a in fm)
+            other = [t for a in fm for t in Tm.subterms(a) if t.op == "field" and Tm.contains(t, lambda u: u is S_)]
+            rep.ob("STR/%s/%s::Display" % (cfg.name, f), uses and not other, "Display must print the decimal form of the canonical integer (into_bigint), never raw limbs; prints canonical integer: %s; raw accesses: %d" % (uses, len(other)),
+                   where=cfg.where(p), nontrivial=False)
+
+
 def stream_serialisation(rep, cfg):
     """flagged (de)serialisation, probed through the EmptyFlags instantiation (deserialize_with_mode / serialize_with_mode)"""
     if cfg.name not in ("A", "R"):
@@ -255,14 +296,15 @@ def run(rep, facts, tier):
         "2^(8 N_8) mod p; checked parse = reduce/re-serialise/compare; from_bigint rejects iff >= p (constant evaluated); stream (de)serialisation reads "
         "LE limbs and applies the same check; Ord compares canonical limbs most-significant first; Hash writes canonical bytes; integer conversions pack "
         "limbs; the wrappers' u32/u64 limb plumbing has the right bit-vector shape. That from_raw_bytes itself reduces modulo p is assumed.")
-    rep.rules += ["RED", "CONV", "CANON", "STREAM", "ORD", "HASH", "LIMBS"]
+    rep.rules += ["RED", "CONV", "CANON", "STREAM", "ORD", "HASH", "LIMBS", "STR"]
     rep.trusted += ["arkworks from_le_bytes_mod_order / fiat from_bytes+to_montgomery reduce modulo p (x*R^2 < p*R for every x < R; an arithmetic, not a shape fact)", "summary table"]
-    rep.assumptions += ["Display / FromStr (decimal Horner) are not checked by a rule of their own"]
+    rep.assumptions += ["BigInt's own decimal ToString and char::to_digit are trusted"]
     for name, f in facts.items():
         if name == "R":
             continue
         cfg = Cfg(f)
         conversions(rep, cfg)
+        strings(rep, cfg)
         stream_serialisation(rep, cfg)
         limb_glue(rep, cfg)
         if name == "A":
